@@ -66,6 +66,7 @@ def run(repo, rep, tier):
     # WBEMConnection methods also on the mock connection)
     from .c04 import explicit_namespace_wins
     explicit_namespace_wins(repo, rep, 'C10.R18')
+    already_exists_means_key_exists(repo, rep)
     from ..argorder import argument_order_rule
     argument_order_rule(repo, rep, 'C10.R14', tuple(
         m.relpath for m in repo.modules.values()
@@ -555,55 +556,7 @@ def run(repo, rep, tier):
                                 'caller can change the repository' % how)
     if r3.sites < 5:
         raise AnalysisError('only %d copy=False sites found' % r3.sites)
-    # ---- R4 ---------------------------------------------------------------
-    for path in MOCK_FILES:
-        for f in repo.module(path).all_funcs():
-            for n in walk_no_nested(f.node):
-                if isinstance(n, ast.Call) and \
-                        isinstance(n.func, ast.Attribute) and \
-                        n.func.attr in ('create', 'update') and \
-                        store_kind(n.func.value, f) is not None and \
-                        len(n.args) == 2:
-                    r4.sites += 1
-                    r4.functions.add(f.fq)
-                    key, obj = n.args
-                    ob = norm(obj)
-                    if isinstance(obj, ast.Call) and \
-                            isinstance(obj.func, ast.Attribute) and \
-                            obj.func.attr == 'copy':
-                        ob = norm(obj.func.value)
-                    kt = norm(key)
-                    ok = kt in (ob + '.path', ob + '.classname', ob + '.name')
-                    # key derived from a sibling copy of the same source
-                    if not ok and isinstance(key, ast.Attribute) and \
-                            key.attr in ('path', 'classname', 'name'):
-                        src = {}
-                        for a in walk_no_nested(f.node):
-                            if isinstance(a, ast.Assign) and \
-                                    isinstance(a.targets[0], ast.Name):
-                                src[a.targets[0].id] = norm(a.value)
-                        kb = norm(key.value)
-                        if src.get(ob) and src.get(kb) and \
-                                src[ob].split('(')[-1] == \
-                                src[kb].split('(')[-1]:
-                            ok = True
-                        # obj = f(key_base, ...): derived from the key's
-                        # object (e.g. the resolved form of the same class)
-                        for a in walk_no_nested(f.node):
-                            if isinstance(a, ast.Assign) and \
-                                    norm(a.targets[0]) == ob and \
-                                    isinstance(a.value, ast.Call) and \
-                                    a.value.args and \
-                                    norm(a.value.args[0]) == kb:
-                                ok = True
-                    r4.ob(ok, '%s|%s' % (f.qualname, norm(n, 80)),
-                          {'function': f.qualname, 'write': norm(n, 90)})
-                    if not ok:
-                        rep.finding(r4, f.qualname, norm(n, 90), 'key', f.file,
-                                    n.lineno, 'the object is stored under a '
-                                    'key that is not its own name/path')
-    if r4.sites < 8:
-        raise AnalysisError('only %d store writes found' % r4.sites)
+    store_writes_keyed_by_object(repo, rep, r4)
     # ---- R5 ---------------------------------------------------------------
     targets = [('pywbem_mock/_providerdispatcher.py', 'ProviderDispatcher',
                 'CreateInstance', 'NewInstance'),
@@ -841,25 +794,45 @@ def status_follows_existence(repo, rep, rid, select):
         for f in m.all_funcs():
             if not select(f) or not f.name[:1].isupper():
                 continue          # public operations: the key is the target
-            for n in walk_no_nested(f.node):
-                if not isinstance(n, ast.If) or not n.body:
-                    continue
-                st = n.body[0]
+            fx_ = stmt_facts(f.node)
+            from ..flow import value_of as _vo
+            parent_ = {}
+            for n_ in ast.walk(f.node):
+                for c_ in ast.iter_child_nodes(n_):
+                    parent_[c_] = n_
+            for st, (facts_, _tr) in fx_.items():
                 if not (isinstance(st, ast.Raise) and
                         isinstance(st.exc, ast.Call) and
                         dotted(st.exc.func) == 'CIMError' and st.exc.args):
                     continue
-                t = n.test
-                exists = True
-                if isinstance(t, ast.UnaryOp) and isinstance(t.op, ast.Not):
-                    t, exists = t.operand, False
-                if not (isinstance(t, ast.Call) and
-                        isinstance(t.func, ast.Attribute) and
-                        t.func.attr == 'object_exists' and t.args):
+                # the existence test that decided this refusal: the
+                # innermost object_exists() fact on the way to the raise
+                # (only the conditions of the enclosing `if` statements
+                # count - closest first -, not what earlier guards that
+                # raised have left behind as facts)
+                t = exists = None
+                cur = st
+                governed = False
+                while cur in parent_ and not governed:
+                    up = parent_[cur]
+                    if isinstance(up, ast.If) and (cur in up.body or
+                                                   cur in up.orelse):
+                        governed = True     # the condition the raise is under
+                        pol0 = cur in up.body
+                        for t_, pol_ in GuardWalker._atoms(up.test, pol0):
+                            if isinstance(t_, ast.Call) and \
+                                    isinstance(t_.func, ast.Attribute) and \
+                                    t_.func.attr == 'object_exists' and \
+                                    t_.args:
+                                t, exists = t_, bool(pol_)
+                    cur = up
+                if t is None:
                     continue
                 # the key is a parameter of the operation (or an attribute
-                # of one): the operation's own target
-                root = t.args[0]
+                # of one, possibly through a local): the operation's own
+                # target
+                root = _vo(f, t.args[0])
+                key0 = root
                 while isinstance(root, ast.Attribute):
                     root = root.value
                 if not (isinstance(root, ast.Name) and root.id in f.params):
@@ -877,8 +850,8 @@ def status_follows_existence(repo, rep, rid, select):
                 want = STATUS_EXCEPTIONS.get(
                     (f.qualname, kind, exists),
                     STATUS_BY_EXISTENCE.get((kind, exists)))
-                if isinstance(t.args[0], ast.Attribute) and \
-                        t.args[0].attr == 'superclass' and not exists:
+                if isinstance(key0, ast.Attribute) and \
+                        key0.attr == 'superclass' and not exists:
                     want = 'CIM_ERR_INVALID_SUPERCLASS'
                 ok = code == want
                 r.ob(ok, '%s|%s' % (f.qualname, norm(t, 50)),
@@ -945,6 +918,145 @@ def untyped_transfers(func):
                  b.value.attr == 'properties'):
             out.append(n)
     return out
+
+
+def store_writes_keyed_by_object(repo, rep, r4, files=None, floor=8):
+    """C10.R4 (also C13.R14 for the association copies): every
+    store.create(key, obj) / store.update(key, obj) of the mock server
+    files an object under its own name / path.  An association instance
+    stored in namespace B under the right key but still carrying the path
+    of namespace A makes ReferenceNames in B return paths of A (the
+    traversal helpers read inst.path of the stored instances), so Names no
+    longer equals the paths of the full result and the traversal is no
+    longer symmetric."""
+    for path in (files or MOCK_FILES):
+        for f in repo.module(path).all_funcs():
+            for n in walk_no_nested(f.node):
+                if isinstance(n, ast.Call) and \
+                        isinstance(n.func, ast.Attribute) and \
+                        n.func.attr in ('create', 'update') and \
+                        store_kind(n.func.value, f) is not None and \
+                        len(n.args) == 2:
+                    r4.sites += 1
+                    r4.functions.add(f.fq)
+                    key, obj = n.args
+                    ob = norm(obj)
+                    if isinstance(obj, ast.Call) and \
+                            isinstance(obj.func, ast.Attribute) and \
+                            obj.func.attr == 'copy':
+                        ob = norm(obj.func.value)
+                    if isinstance(key, ast.Call) and not key.args and \
+                            isinstance(key.func, ast.Attribute) and \
+                            key.func.attr == 'copy':
+                        key = key.func.value
+                    kt = norm(key)
+                    ok = kt in (ob + '.path', ob + '.classname', ob + '.name')
+                    # key derived from a sibling copy of the same source
+                    if not ok and isinstance(key, ast.Attribute) and \
+                            key.attr in ('path', 'classname', 'name'):
+                        src = {}
+                        for a in walk_no_nested(f.node):
+                            if isinstance(a, ast.Assign) and \
+                                    isinstance(a.targets[0], ast.Name):
+                                src[a.targets[0].id] = norm(a.value)
+                        kb = norm(key.value)
+                        if src.get(ob) and src.get(kb) and \
+                                src[ob].split('(')[-1] == \
+                                src[kb].split('(')[-1]:
+                            ok = True
+                        # obj = f(key_base, ...): derived from the key's
+                        # object (e.g. the resolved form of the same class)
+                        for a in walk_no_nested(f.node):
+                            if isinstance(a, ast.Assign) and \
+                                    norm(a.targets[0]) == ob and \
+                                    isinstance(a.value, ast.Call) and \
+                                    a.value.args and \
+                                    norm(a.value.args[0]) == kb:
+                                ok = True
+                    r4.ob(ok, '%s|%s' % (f.qualname, norm(n, 80)),
+                          {'function': f.qualname, 'write': norm(n, 90)})
+                    if not ok:
+                        rep.finding(r4, f.qualname, norm(n, 90), 'key', f.file,
+                                    n.lineno, 'the object is stored under a '
+                                    'key that is not its own name/path')
+    if r4.sites < floor:
+        raise AnalysisError('only %d store writes found' % r4.sites)
+
+
+def already_exists_means_key_exists(repo, rep):
+    """C10.R19: the mock server answers CIM_ERR_ALREADY_EXISTS exactly when
+    the key of the new entry is in the store (the reference map: create
+    fails iff (namespace, class, keybindings) is present).  Every `raise
+    CIMError(CIM_ERR_ALREADY_EXISTS, ...)` is therefore either the handler
+    of the store's own refusal (`except ValueError` around store.create() /
+    add_namespace()) or runs under a positive `<store>.object_exists(key)`
+    (or, for the Interop namespace, find_interop_namespace()) fact.  An
+    additional uniqueness test (e.g. equal keybindings in a superclass)
+    refuses creations the map accepts, and the instance is then missing
+    from every later read."""
+    from ..cfg import GuardWalker
+    r19 = rep.rule('C10.R19', 'CIM_ERR_ALREADY_EXISTS is raised only when '
+                   'the store says the key exists')
+    n = 0
+    for m in repo.modules.values():
+        if not m.relpath.startswith('pywbem_mock/'):
+            continue
+        for f in m.all_funcs():
+            raises = [x for x in walk_no_nested(f.node)
+                      if isinstance(x, ast.Raise) and x.exc is not None and
+                      isinstance(x.exc, ast.Call) and
+                      dotted(x.exc.func) == 'CIMError' and x.exc.args and
+                      norm(x.exc.args[0]) == 'CIM_ERR_ALREADY_EXISTS']
+            if not raises:
+                continue
+            fx = stmt_facts(f.node)
+            handlers = {}
+            for t in walk_no_nested(f.node):
+                if isinstance(t, ast.Try):
+                    for h in t.handlers:
+                        for x in ast.walk(h):
+                            handlers[id(x)] = (t, h)
+            for rz in raises:
+                n += 1
+                r19.sites += 1
+                r19.functions.add(f.fq)
+                atoms = [a for t0, p0 in fx.get(rz, ((), ()))[0]
+                         for a in GuardWalker._atoms(t0, p0)]
+                by_fact = any(
+                    pol and isinstance(t, ast.Call) and
+                    isinstance(t.func, ast.Attribute) and
+                    t.func.attr in ('object_exists',
+                                    'find_interop_namespace')
+                    for t, pol in atoms)
+                by_handler = False
+                if id(rz) in handlers:
+                    t, h = handlers[id(rz)]
+                    names_ = {norm(e).split('.')[-1] for e in (
+                        h.type.elts if isinstance(h.type, ast.Tuple)
+                        else [h.type])} if h.type is not None else set()
+                    by_handler = 'ValueError' in names_ and any(
+                        isinstance(c, ast.Call) and
+                        isinstance(c.func, ast.Attribute) and
+                        c.func.attr in ('create', 'add_namespace')
+                        for b in t.body for c in ast.walk(b))
+                ok = by_fact or by_handler
+                r19.ob(ok, '%s|%s' % (f.qualname, rz.lineno),
+                       {'by': 'object_exists fact' if by_fact else
+                        'store refusal' if by_handler else None})
+                if not ok:
+                    conds = ', '.join(
+                        '%s%s' % ('' if pol else 'not ', norm(t, 50))
+                        for t, pol in fx.get(rz, ((), ()))[0][:2])
+                    rep.finding(r19, f.qualname, 'raise CIMError('
+                                'CIM_ERR_ALREADY_EXISTS)', 'not-store-'
+                                'membership', m.relpath, rz.lineno,
+                                'CIM_ERR_ALREADY_EXISTS is raised under [%s] '
+                                '- not because the store has the key: a '
+                                'creation the reference map accepts is '
+                                'refused' % (conds or 'no condition'))
+    if n < 4:
+        raise AnalysisError('C10.R19: only %d ALREADY_EXISTS sites found'
+                            % n)
 
 
 def loops_cut_short(func_node):
